@@ -288,5 +288,7 @@ class IPv6FlowSpec(NLRI):
                 opt_flag_bin = cls.construct_operator_flag(flag_dict)
                 data_bin += struct.pack('!B', opt_flag_bin)
                 data_bin += value_hex
+            else:
+                raise ValueError("the '&' operator is not supported: %s" % data)
 
         return data_bin
